@@ -5,8 +5,8 @@
 
    Exception classes (one constructor each):
      EValue  = ValueError (incl. parser.ParserError, a subclass)
-     EType   = TypeError  (rrule() called without freq: text without a FREQ part)
-     EIndex  = IndexError (no RRULE line in a non-set input: rrulevals[0])
+     EType   = TypeError  (rrule() called without freq; since ec791d5 not reachable through rrulestr)
+     EIndex  = IndexError (unused since a8bd79d: "no RRULE line found" is a ValueError)
      EUnmodelled = the input leaves the modelled fragment (non-ASCII text, or a date value that
                    is not of the compact forms YYYYMMDD[THHMMSS[Z]]: those go through the generic
                    parser, which is another area's model).  Never compared with the code. *)
@@ -578,7 +578,8 @@ Fixpoint do_lines (o : opts) (names : list str) (lines : list str) (a : acc) : r
 Definition parse_rule (ev : env) (ignoretz : bool) (line : str) (dtstart : option dt) : res rule :=
   match parse_rrule_kw ignoretz line with
   | Err e => Err e
-  | Ok kw => ctor ev dtstart kw
+  | Ok kw => if isNone (k_freq kw) then Err EValue      (* "missing FREQ" *)
+             else ctor ev dtstart kw
   end.
 
 Fixpoint parse_rules (ev : env) (ignoretz : bool) (dtstart : option dt) (l : list str) : res (list rule) :=
@@ -635,7 +636,7 @@ Definition assemble (ev : env) (o0 : opts) (forceset : bool) (a : acc) : result 
     end
   else
     match a_rr a with
-    | [] => RErr EIndex                      (* rrulevals[0] *)
+    | [] => RErr EValue                      (* "no RRULE line found" *)
     | v :: _ => match parse_rule ev ig v (a_start a) with
                 | Ok r => RRule (o_cache o0) r
                 | Err e => RErr e
@@ -655,24 +656,23 @@ Definition shortcut (forceset : bool) (s : str) (lines : list str) : bool :=
   negb forceset && (Z.of_nat (List.length lines) =? 1)
   && (negb (has_char 58 s) || startswith s_RRULEc s).
 
-(* the part of _parse_rfc after upper-casing: s is the upper-cased text, names the TZID names
-   found in the original text *)
-Definition parse_upper (ev : env) (o0 : opts) (names : list str) (s : str) : result :=
+(* the part of _parse_rfc after the lines are known: s = the upper-cased text, lines = the
+   upper-cased lines, names = the TZID names found in the lines before upper-casing *)
+Definition parse_lines (ev : env) (o0 : opts) (names : list str) (s : str) (lines : list str) : result :=
   let forceset := o_forceset o0 || o_compatible o0 in
-  let unfold := o_unfold o0 || o_compatible o0 in
-  if isnil (strip s) then RErr EValue       (* "empty string" *)
-  else
-    let lines := get_lines unfold s in
-    if shortcut forceset s lines then
-      match lines with
-      | l0 :: _ => match parse_rule ev (o_ignoretz o0) l0 (o_dtstart o0) with
-                   | Ok r => RRule (o_cache o0) r
-                   | Err e => RErr e
-                   end
-      | [] => RErr EIndex                   (* unreachable: len(lines) == 1 *)
-      end
-    else general ev o0 forceset names lines.
+  if shortcut forceset s lines then
+    match lines with
+    | l0 :: _ => match parse_rule ev (o_ignoretz o0) l0 (o_dtstart o0) with
+                 | Ok r => RRule (o_cache o0) r
+                 | Err e => RErr e
+                 end
+    | [] => RErr EValue                     (* unreachable: len(lines) == 1 *)
+    end
+  else general ev o0 forceset names lines.
 
 Definition parse_rfc (ev : env) (o0 : opts) (s0 : str) : result :=
   if negb (forallb is_ascii s0) then RErr EUnmodelled
-  else parse_upper ev o0 (tzid_findall s0) (upper s0).
+  else if isnil (strip s0) then RErr EValue           (* "empty string" *)
+  else
+    let lines0 := get_lines (o_unfold o0 || o_compatible o0) s0 in
+    parse_lines ev o0 (tzid_findall (join [10] lines0)) (upper s0) (map upper lines0).
